@@ -2,13 +2,13 @@
 //   bigseq <W> <n> <op>*      operation sequence on a fresh heap-allocated object (exact-size block) and a
 //                             second one for copy / move assignment (sv: t = x, ld: x = t, mv: x = move(t));
 //                             one token `idx/words/ret` per step, `pre` when the step's precondition
-//                             fails (zero divisor, bit scan of a zero word, operand wider than the
-//                             storage) and the step is skipped; a last token `S<checked>.<bad>` is the
+//                             fails (zero divisor, bit scan of a zero word) and the step is skipped; a last token `S<checked>.<bad>` is the
 //                             unsigned __int128 shadow verdict (second opinion, values < 2^128 only).
 //   bighm/bighd/bighmx/bighdx see lean/Qentem/Driver/BigInt.lean
 #include "common.hpp"
 #include "BigInt.hpp"
 #include <new>
+#include <unistd.h>
 using namespace Qentem;
 typedef unsigned __int128 u128;
 
@@ -115,8 +115,9 @@ static int typeBits(const std::string &ty, bool &is_signed) {
 }
 
 template <typename B, typename N>
-static void doBop(B &x, const std::string &o, u128 v) {
-    const N a = N(v);
+static void doBop(B &x, const std::string &o, u128 v, bool neg) {
+    // a negative operand (signed N only) is built from its two's-complement pattern
+    const N a = N(neg ? (u128(0) - v) : v);
     if (o == "as") x = a;
     else if (o == "cn") { x.~B(); new (&x) B(a); } // converting constructor
     else if (o == "ad") x += a;
@@ -196,22 +197,29 @@ static std::string runSeq(const std::vector<std::string> &t) {
         } else if (f.size() == 3) {
             u128 v;
             bool sg;
-            const int K = typeBits(f[1], sg);
-            if (!parse_u128(f[2], v) || K == 0) return "bad-op";
-            if (shr128(v, unsigned(sg ? K - 1 : K)) != 0) return "bad-op"; // signed operands: non-negative values only
-            if ((o == "as" || o == "cn" || o == "or" || o == "an") && narrow_obj && K > int(W) && shr128(v, n * W) != 0) pre = true;
+            const int  K = typeBits(f[1], sg);
+            const bool neg = (!f[2].empty() && f[2][0] == '-');
+            if (K == 0 || !parse_u128(neg ? f[2].substr(1) : f[2], v)) return "bad-op";
+            if (neg && (!sg || v == 0 || v > (u128(1) << (K - 1)))) return "bad-op";
+            if (!neg && shr128(v, unsigned(sg ? K - 1 : K)) != 0) return "bad-op";
             if (!(o == "as" || o == "cn" || o == "ad" || o == "sb" || o == "or" || o == "an")) return "bad-op";
-            if (!pre) {
-                withType(f[1], [&](auto tag) { doBop<B, decltype(tag)>(x, o, v); });
-                if (o == "cn") { sh = v; shv = fits(v); }
-                else if (shv) {
-                    if (o == "as") { sh = v; shv = fits(v); }
-                    else
-                    if (o == "ad") { u128 r; shv = !__builtin_add_overflow(sh, v, &r) && fits(r); sh = r; }
-                    else if (o == "sb") { shv = (v <= sh); sh -= v; }
-                    else if (o == "or") { shv = fits(v); sh |= v; }
-                    else { shv = fits(v); sh &= v; }
-                }
+            // the value the operand denotes for the object: a negative number is its two's-complement
+            // pattern at width max(K, W) (sign extension to the word, chunk loop over the operand's width)
+            u128 u = v;
+            if (neg) {
+                const unsigned m = (unsigned(K) > W) ? unsigned(K) : W;
+                u = u128(0) - v;
+                if (m < 128U) u &= ((u128(1) << m) - 1U);
+            }
+            withType(f[1], [&](auto tag) { doBop<B, decltype(tag)>(x, o, v, neg); });
+            if (o == "cn") { sh = u; shv = fits(u); }
+            else if (shv) {
+                if (o == "as") { sh = u; shv = fits(u); }
+                else
+                if (o == "ad") { u128 r; shv = !__builtin_add_overflow(sh, u, &r) && fits(r); sh = r; }
+                else if (o == "sb") { shv = (u <= sh); sh -= u; }
+                else if (o == "or") { shv = fits(u); sh |= u; }
+                else { shv = fits(u); sh &= u; }
             }
         } else if (f.size() == 2 && o == "nw") {
             // explicit conversion to every unsigned / signed type (signed results shown as their bit pattern)
@@ -576,6 +584,7 @@ static std::string dispatchSeq(const std::vector<std::string> &t) {
 int main() {
     std::string line;
     while (vh::read_line(line)) {
+        alarm(8);  // an operation that never returns (a chunk loop on a negative operand) ends the line as FAULT signal:14
         auto t = vh::split(line);
         if (t[0] == "bigseq") vh::emit(dispatchSeq(t));
         else if (t[0] == "bighm" || t[0] == "bighd" || t[0] == "bighmx" || t[0] == "bighdx") vh::emit(dispatchHelper(t));
